@@ -87,6 +87,9 @@ def apply(c):
     /// ghost: the value is in the image of the parser (e.g. a TXT has at least one string, an opaque record does not carry
     /// the code of a typed one): only such values can read back identically
     spec fn wf_canon(&self) -> bool;
+    /// ghost: values of this type are written inside an RDATA, i.e. possibly after the (not yet patched) RDLENGTH slot of
+    /// the enclosing record: their compressed writer must be insensitive to a later patch of such a slot
+    spec fn wf_in_rdata() -> bool where Self: Sized;
     /// ghost: the RFC of this type forbids compressing the names it contains (SRV NAPTR KX RRSIG NSEC IPSECKEY SVCB HTTPS)
     spec fn wf_nocomp() -> bool where Self: Sized;
     /// round trip: the encoding of a value, appended to any prefix, decodes to that value
@@ -130,13 +133,31 @@ def apply(c):
             r is Ok ==> Self::wf_cdec(io_buf(final(out)), io_buf(old(out)).len() as int, self, io_buf(final(out)).len() as int), // @C03:compressed-form-decodes,C07:pointers-expand-to-the-name
             r is Ok ==> io_buf(final(out)).len() - io_buf(old(out)).len() <= self.wf_enc().len(), // @C03:never-longer
             r is Ok ==> (self.wf_enc().len() > 0 ==> io_buf(final(out)).len() > io_buf(old(out)).len()),
+            r is Ok ==> (Self::wf_in_rdata() ==> forall|wa: int, mp: Seq<u8>| 0 <= wa && wa + 2 <= io_buf(old(out)).len()
+                    && #[trigger] agree_out(io_buf(final(out)), mp, wa) && refs_ok(old(_name_refs)@, mp.subrange(0, io_buf(old(out)).len() as int))
+                ==> refs_ok(final(_name_refs)@, mp) && Self::wf_cdec(mp, io_buf(old(out)).len() as int, self, mp.len() as int)), // @C03:insensitive-to-rdlength-patch
             r is Ok ==> (Self::wf_nocomp() ==> io_buf(final(out)) =~= io_buf(old(out)) + self.wf_enc()), // @C07:written-in-full
     {
+        let ghost vx_m0 = io_buf(out);
         proof {
             self.lemma_rt(io_buf(out));
             lemma_refs_append(_name_refs@, io_buf(out), self.wf_enc());
         }
-        self.write_to(out)
+        let vx_r = self.write_to(out);
+        proof {
+            if vx_r is Ok {
+                assert(io_buf(out) =~= vx_m0 + self.wf_enc());
+                assert forall|wa: int, mp: Seq<u8>| 0 <= wa && wa + 2 <= vx_m0.len() && #[trigger] agree_out(io_buf(out), mp, wa)
+                        && refs_ok(_name_refs@, mp.subrange(0, vx_m0.len() as int))
+                    implies refs_ok(_name_refs@, mp) && Self::wf_cdec(mp, vx_m0.len() as int, self, mp.len() as int) by {
+                    lemma_agree_suffix(vx_m0, self.wf_enc(), mp, wa);
+                    let m0x = mp.subrange(0, vx_m0.len() as int);
+                    lemma_refs_append(_name_refs@, m0x, self.wf_enc());
+                    self.lemma_rt(m0x);
+                }
+            }
+        }
+        vx_r
     }"""
     c.wr('dns/wire_format.rs', s2.replace(old_sig, new_sig))
     c.log.append(('contract', 'dns/wire_format.rs', 'trait WireFormat / write_compressed_to (default method)'))
@@ -171,7 +192,7 @@ pub open spec fn cw_ok<'a, V: WireFormat<'a>, T: ?Sized>(o0: &T, o1: &T, refs1: 
         add_header(c, rel)
         c.rules(rel)
     c.sub('dns/rdata/mod.rs', 'use crate::CharacterString;',
-          'use crate::CharacterString;\nuse vstd::prelude::*;\n#[allow(unused_imports)]\nuse crate::vx::*;\n#[allow(unused_imports)]\nuse crate::dns::wire_format::*;')
+          'use crate::CharacterString;\nuse vstd::prelude::*;\n#[allow(unused_imports)]\nuse crate::vx::*;\n#[allow(unused_imports)]\nuse crate::dns::wire_format::*;\n#[allow(unused_imports)]\nuse crate::dns::name::*;')
     c.wrap('dns/rdata/mod.rs', "pub(crate) trait RR {")
     c.rules('dns/rdata/macros.rs')
     for rel in ['dns/question.rs', 'dns/resource_record.rs', 'dns/packet.rs', 'dns/header.rs']:
